@@ -518,4 +518,358 @@ theorem serialize_normSafe (withJunk : Bool) (r : Resource Bytes) :
   simp only [serialize, normSafe]
   rw [serResourceGo_nRes _ (fun a b h => of_decide_eq_true h)]
 
+/-! ## line-split trees: `normSafe` is a function of `norm` -/
+
+/-- a text element as the parser produces them: non-empty, `\n` only as the last byte, no `\r\n`
+inside (the parser never keeps the `\r` of a CRLF line end) -/
+def lineText : Bytes → Bool
+  | [] => false
+  | [_] => true
+  | x :: y :: rest => x != 10 && !(x == 13 && y == 10) && lineText (y :: rest)
+
+/-- the canonical splitting of a text run: after every `\n` and between `\r` and `\n` -/
+def splitCanon : Bytes → List Bytes
+  | [] => []
+  | [x] => [[x]]
+  | x :: y :: rest =>
+    if x == 10 || (x == 13 && y == 10) then [x] :: splitCanon (y :: rest)
+    else match splitCanon (y :: rest) with
+      | [] => [[x]]
+      | c :: cs => (x :: c) :: cs
+
+theorem splitCanon_head {N c : Bytes} {cs : List Bytes} (h : splitCanon N = c :: cs) : c ≠ [] ∧ c.head? = N.head? := by
+  match N, h with
+  | [x], h => simp [splitCanon] at h; simp [← h.1]
+  | x :: y :: rest, h =>
+    rw [splitCanon] at h
+    split at h
+    · simp at h; simp [← h.1]
+    · split at h <;> (simp at h; simp [← h.1])
+
+theorem splitCanon_ne_nil {N : Bytes} (h : N ≠ []) : splitCanon N ≠ [] := by
+  match N, h with
+  | [x], _ => simp [splitCanon]
+  | x :: y :: rest, _ =>
+    rw [splitCanon]
+    split
+    · simp
+    · split <;> simp
+
+/-- a line text is its own canonical splitting -/
+theorem splitCanon_lineText (a : Bytes) (h : lineText a = true) : splitCanon a = [a] := by
+  induction a with
+  | nil => simp [lineText] at h
+  | cons x a ih =>
+    cases a with
+    | nil => simp [splitCanon]
+    | cons y rest =>
+      simp [lineText] at h
+      rw [splitCanon, ih h.2]
+      have : (x == 10 || (x == 13 && y == 10)) = false := by
+        simp only [Bool.or_eq_false_iff, Bool.and_eq_false_iff, beq_eq_false_iff_ne]
+        exact h.1
+      simp [this]
+
+theorem joinOK_cons (x y : UInt8) (a c : Bytes) : JoinOK (x :: y :: a) c ↔ JoinOK (y :: a) c := by
+  simp [JoinOK, List.getLast?_cons_cons]
+
+/-- prefixing a line text `a` to a text run `N`: `a` merges with the first canonical piece of `N`
+exactly when `JoinOK` -/
+theorem splitCanon_append (a N c : Bytes) (cs : List Bytes) (ha : lineText a = true) (hN : splitCanon N = c :: cs) :
+    splitCanon (a ++ N) = if JoinOK a c then (a ++ c) :: cs else a :: c :: cs := by
+  obtain ⟨hc, hhd⟩ := splitCanon_head hN
+  induction a with
+  | nil => simp [lineText] at ha
+  | cons x a ih =>
+    cases a with
+    | nil =>
+      cases N with
+      | nil => simp [splitCanon] at hN
+      | cons y N' =>
+        simp at hhd
+        simp only [List.cons_append, List.nil_append]
+        rw [splitCanon, hN]
+        simp only [JoinOK, hhd]
+        by_cases h1 : x = 10
+        · simp [h1]
+        · by_cases h2 : x = 13 ∧ y = 10
+          · simp [h2.1, h2.2]
+          · have : (x == 10 || (x == 13 && y == 10)) = false := by
+              simp only [Bool.or_eq_false_iff, Bool.and_eq_false_iff, beq_eq_false_iff_ne]
+              exact ⟨h1, Classical.not_and_iff_not_or_not.mp h2⟩
+            simp [this, h1]
+            intro h3 h4; exact h2 ⟨h3, h4⟩
+    | cons y rest =>
+      simp [lineText] at ha
+      have ih' := ih ha.2
+      simp only [List.cons_append] at ih' ⊢
+      rw [splitCanon, ih']
+      have : (x == 10 || (x == 13 && y == 10)) = false := by
+        simp only [Bool.or_eq_false_iff, Bool.and_eq_false_iff, beq_eq_false_iff_ne]
+        exact ha.1
+      simp only [this, Bool.false_eq_true, if_false, joinOK_cons]
+      by_cases hj : JoinOK (y :: rest) c <;> simp [hj]
+
+/-- the two joining conditions -/
+abbrev okAll : Bytes → Bytes → Bool := fun _ _ => true
+abbrev okSafe : Bytes → Bytes → Bool := fun a b => decide (JoinOK a b)
+
+mutual
+/-- re-split every text run canonically (recursively) -/
+def rsInline : Inline Bytes → Inline Bytes
+  | .str v => .str v
+  | .num v => .num v
+  | .var v => .var v
+  | .msg a b => .msg a b
+  | .fn id pos named => .fn id (rsInl pos) (rsNamed named)
+  | .term id attr none => .term id attr none
+  | .term id attr (some (pos, named)) => .term id attr (some (rsInl pos, rsNamed named))
+  | .placeable e => .placeable (rsExpr e)
+def rsInl : List (Inline Bytes) → List (Inline Bytes)
+  | [] => []
+  | x :: xs => rsInline x :: rsInl xs
+def rsNamed : List (Bytes × Inline Bytes) → List (Bytes × Inline Bytes)
+  | [] => []
+  | (n, x) :: xs => (n, rsInline x) :: rsNamed xs
+def rsExpr : Expr Bytes → Expr Bytes
+  | .inline e => .inline (rsInline e)
+  | .select sel vs => .select (rsInline sel) (rsVariants vs)
+def rsVariants : List (Variant Bytes) → List (Variant Bytes)
+  | [] => []
+  | v :: vs => rsVariant v :: rsVariants vs
+def rsVariant : Variant Bytes → Variant Bytes
+  | .mk k val d => .mk k (rsPat val) d
+def rsPat : List (PatElem Bytes) → List (PatElem Bytes)
+  | [] => []
+  | e :: es => rsElem e ++ rsPat es
+def rsElem : PatElem Bytes → List (PatElem Bytes)
+  | .text v => (splitCanon v).map PatElem.text
+  | .placeable e => [.placeable (rsExpr e)]
+end
+
+mutual
+/-- every text element of the tree is a `lineText` -/
+def lsInline : Inline Bytes → Prop
+  | .fn _ pos named => lsInl pos ∧ lsNamed named
+  | .term _ _ (some (pos, named)) => lsInl pos ∧ lsNamed named
+  | .placeable e => lsExpr e
+  | _ => True
+def lsInl : List (Inline Bytes) → Prop
+  | [] => True
+  | x :: xs => lsInline x ∧ lsInl xs
+def lsNamed : List (Bytes × Inline Bytes) → Prop
+  | [] => True
+  | (_, x) :: xs => lsInline x ∧ lsNamed xs
+def lsExpr : Expr Bytes → Prop
+  | .inline e => lsInline e
+  | .select sel vs => lsInline sel ∧ lsVariants vs
+def lsVariants : List (Variant Bytes) → Prop
+  | [] => True
+  | v :: vs => lsVariant v ∧ lsVariants vs
+def lsVariant : Variant Bytes → Prop
+  | .mk _ val _ => lsPat val
+def lsPat : List (PatElem Bytes) → Prop
+  | [] => True
+  | e :: es => lsElem e ∧ lsPat es
+def lsElem : PatElem Bytes → Prop
+  | .text v => lineText v = true
+  | .placeable e => lsExpr e
+end
+
+/-- the head of a fully joined line-split pattern is not an empty text -/
+theorem nPat_all_head (p : List (PatElem Bytes)) (h : lsPat p) :
+    ∀ N R, nPat okAll p = .text N :: R → N ≠ [] := by
+  intro N R hp
+  cases p with
+  | nil => simp [nPat] at hp
+  | cons e es =>
+    rw [nPat] at hp
+    cases e with
+    | placeable e => simp [nElem, joinHead] at hp
+    | text a =>
+      have ha : a ≠ [] := by
+        intro h0; rw [lsPat, lsElem, h0] at h; simp [lineText] at h
+      simp only [nElem] at hp
+      unfold joinHead at hp
+      split at hp
+      · rename_i a' b rest h1 h2
+        simp at h1 hp
+        rw [← hp.1, ← h1]; simp [ha]
+      · simp at hp; rw [← hp.1]
+        rename_i h1 _; exact ha
+
+theorem rsPat_text_cons (v : Bytes) (es : List (PatElem Bytes)) :
+    rsPat (.text v :: es) = (splitCanon v).map PatElem.text ++ rsPat es := by
+  rw [rsPat, rsElem]
+
+theorem rsPat_placeable_cons (e : Expr Bytes) (es : List (PatElem Bytes)) :
+    rsPat (.placeable e :: es) = .placeable (rsExpr e) :: rsPat es := by
+  rw [rsPat, rsElem]; rfl
+
+/-- the step of the pattern induction: a line text in front of an already normalised tail -/
+theorem joinHead_text_rs (a : Bytes) (ha : lineText a = true) (R : List (PatElem Bytes))
+    (hR : ∀ N R', R = .text N :: R' → N ≠ []) :
+    joinHead okSafe (.text a) (rsPat R) = rsPat (joinHead okAll (.text a) R) := by
+  cases R with
+  | nil => simp [joinHead, rsPat, rsElem, splitCanon_lineText a ha]
+  | cons r R' =>
+    cases r with
+    | placeable e =>
+      simp [joinHead, rsPat_placeable_cons, rsPat_text_cons, splitCanon_lineText a ha]
+    | text N =>
+      have hN := hR N R' rfl
+      cases hs : splitCanon N with
+      | nil => exact absurd hs (splitCanon_ne_nil hN)
+      | cons c cs =>
+        have := splitCanon_append a N c cs ha hs
+        simp only [joinHead, if_true, rsPat_text_cons, hs, this, List.map_cons, List.cons_append]
+        by_cases hj : JoinOK a c <;> simp [hj]
+
+mutual
+
+theorem nInline_safe_eq (e : Inline Bytes) (h : lsInline e) : nInline okSafe e = rsInline (nInline okAll e) := by
+  cases e with
+  | str v => simp [nInline, rsInline]
+  | num v => simp [nInline, rsInline]
+  | var id => simp [nInline, rsInline]
+  | msg id attr => simp [nInline, rsInline]
+  | fn id pos named =>
+    rw [lsInline] at h
+    simp only [nInline, rsInline]
+    rw [nInl_safe_eq pos h.1, nNamed_safe_eq named h.2]
+  | term id attr args =>
+    cases args with
+    | none => simp [nInline, rsInline]
+    | some pn =>
+      obtain ⟨pos, named⟩ := pn
+      rw [lsInline] at h
+      simp only [nInline, rsInline]
+      rw [nInl_safe_eq pos h.1, nNamed_safe_eq named h.2]
+  | placeable e =>
+    rw [lsInline] at h
+    simp only [nInline, rsInline]
+    rw [nExpr_safe_eq e h]
+
+theorem nInl_safe_eq (xs : List (Inline Bytes)) (h : lsInl xs) : nInl okSafe xs = rsInl (nInl okAll xs) := by
+  cases xs with
+  | nil => simp [nInl, rsInl]
+  | cons x xs =>
+    rw [lsInl] at h
+    simp only [nInl, rsInl]
+    rw [nInline_safe_eq x h.1, nInl_safe_eq xs h.2]
+
+theorem nNamed_safe_eq (xs : List (Bytes × Inline Bytes)) (h : lsNamed xs) :
+    nNamed okSafe xs = rsNamed (nNamed okAll xs) := by
+  cases xs with
+  | nil => simp [nNamed, rsNamed]
+  | cons x xs =>
+    obtain ⟨n, v⟩ := x
+    rw [lsNamed] at h
+    simp only [nNamed, rsNamed]
+    rw [nInline_safe_eq v h.1, nNamed_safe_eq xs h.2]
+
+theorem nExpr_safe_eq (e : Expr Bytes) (h : lsExpr e) : nExpr okSafe e = rsExpr (nExpr okAll e) := by
+  cases e with
+  | inline i =>
+    rw [lsExpr] at h
+    simp only [nExpr, rsExpr]
+    rw [nInline_safe_eq i h]
+  | select sel vs =>
+    rw [lsExpr] at h
+    simp only [nExpr, rsExpr]
+    rw [nInline_safe_eq sel h.1, nVariants_safe_eq vs h.2]
+
+theorem nVariants_safe_eq (vs : List (Variant Bytes)) (h : lsVariants vs) :
+    nVariants okSafe vs = rsVariants (nVariants okAll vs) := by
+  cases vs with
+  | nil => simp [nVariants, rsVariants]
+  | cons v vs =>
+    rw [lsVariants] at h
+    simp only [nVariants, rsVariants]
+    rw [nVariant_safe_eq v h.1, nVariants_safe_eq vs h.2]
+
+theorem nVariant_safe_eq (v : Variant Bytes) (h : lsVariant v) : nVariant okSafe v = rsVariant (nVariant okAll v) := by
+  cases v with
+  | mk key value dflt =>
+    rw [lsVariant] at h
+    simp only [nVariant, rsVariant]
+    rw [nPat_safe_eq value h]
+
+theorem nPat_safe_eq (es : List (PatElem Bytes)) (h : lsPat es) : nPat okSafe es = rsPat (nPat okAll es) := by
+  cases es with
+  | nil => simp [nPat, rsPat]
+  | cons e es =>
+    rw [lsPat] at h
+    rw [nPat, nPat, nPat_safe_eq es h.2]
+    cases e with
+    | text a =>
+      rw [lsElem] at h
+      simp only [nElem]
+      exact joinHead_text_rs a h.1 _ (nPat_all_head es h.2)
+    | placeable e =>
+      rw [lsElem] at h
+      simp only [nElem, joinHead, rsPat_placeable_cons]
+      rw [nExpr_safe_eq e h.1]
+
+end
+
+def rsAttr (a : Attribute Bytes) : Attribute Bytes := ⟨a.id, rsPat a.value⟩
+
+def rsEntry : Entry Bytes → Entry Bytes
+  | .message m => .message ⟨m.id, m.value.map rsPat, m.attributes.map rsAttr, m.comment⟩
+  | .term t => .term ⟨t.id, rsPat t.value, t.attributes.map rsAttr, t.comment⟩
+  | e => e
+
+def lsEntry : Entry Bytes → Prop
+  | .message m => (∀ v, m.value = some v → lsPat v) ∧ ∀ a ∈ m.attributes, lsPat a.value
+  | .term t => lsPat t.value ∧ ∀ a ∈ t.attributes, lsPat a.value
+  | _ => True
+
+/-- **line-split resource**: every text element of every pattern is non-empty, contains `
+` only as
+its last byte and contains no `
+` — the shape in which the parser delivers text (it cuts text at
+every line end and never keeps the `
+` of a CRLF). -/
+def LineSplit (r : Resource Bytes) : Prop := ∀ e ∈ r, lsEntry e
+
+theorem nAttrs_safe_eq (as : List (Attribute Bytes)) (h : ∀ a ∈ as, lsPat a.value) :
+    as.map (nAttr okSafe) = (as.map (nAttr okAll)).map rsAttr := by
+  induction as with
+  | nil => rfl
+  | cons a as ih =>
+    simp only [List.map_cons, nAttr, rsAttr]
+    rw [nPat_safe_eq a.value (h a (by simp)), ih (fun a ha => h a (by simp [ha]))]
+
+theorem nEntry_safe_eq (e : Entry Bytes) (h : lsEntry e) : nEntry okSafe e = rsEntry (nEntry okAll e) := by
+  cases e with
+  | message m =>
+    obtain ⟨id, value, attrs, comment⟩ := m
+    simp only [lsEntry] at h
+    simp only [nEntry, rsEntry, nAttrs_safe_eq attrs h.2]
+    cases value with
+    | none => rfl
+    | some v => simp [nPat_safe_eq v (h.1 v rfl)]
+  | term t =>
+    obtain ⟨id, value, attrs, comment⟩ := t
+    simp only [lsEntry] at h
+    simp only [nEntry, rsEntry, nAttrs_safe_eq attrs h.2, nPat_safe_eq value h.1]
+  | _ => rfl
+
+/-- on line-split resources `normSafe` is a function of `norm` -/
+theorem normSafe_eq_rs_norm (withJunk : Bool) (r : Resource Bytes) (h : LineSplit r) :
+    normSafe withJunk r = (norm withJunk r).map rsEntry := by
+  simp only [normSafe, norm, nRes, List.map_map]
+  apply List.map_congr_left
+  intro e he
+  exact nEntry_safe_eq e (h e (List.mem_filter.mp he).1)
+
+/-- **T1c, corollary for parser-shaped trees.**  Two line-split resources that are equal under the
+property's comparison `norm` serialise to the same bytes.  (This turns `fixpoint` into a corollary
+of `roundtrip` once the parser is known to produce line-split trees.) -/
+theorem serialize_congr_lineSplit (withJunk : Bool) (r₁ r₂ : Resource Bytes) (h₁ : LineSplit r₁) (h₂ : LineSplit r₂)
+    (h : norm withJunk r₁ = norm withJunk r₂) : serialize withJunk r₁ = serialize withJunk r₂ := by
+  rw [← serialize_normSafe withJunk r₁, ← serialize_normSafe withJunk r₂,
+    normSafe_eq_rs_norm withJunk r₁ h₁, normSafe_eq_rs_norm withJunk r₂ h₂, h]
+
 end FluentProofs.Ser
